@@ -352,6 +352,67 @@ func c16FirstContact(r *fw.Run, reps int, rng *rand.Rand) {
 	r.Done(9)
 }
 
+// lockedWriter: the caller's stderr sink; safe for the writer goroutine os/exec starts.
+type lockedWriter struct {
+	mu sync.Mutex
+	n  int
+}
+
+func (w *lockedWriter) Write(b []byte) (int, error) {
+	w.mu.Lock()
+	w.n += len(b)
+	w.mu.Unlock()
+	return len(b), nil
+}
+
+// c16Bridges: client connections over bridge subprocesses that write to stderr - before they fail, while they work, or
+// never - used by one goroutine; the library's own goroutines (and the ones os/exec starts for it) must not race with it.
+func c16Bridges(r *fw.Run, reps int) {
+	exe, _ := os.Executable()
+	svc, err := varlink.NewService("Verif", "Bridged", "1", "u")
+	if err != nil {
+		return
+	}
+	p := filepath.Join(r.WorkDir, fmt.Sprintf("br%d", r.Seq()))
+	ctx, cancel := context.WithCancel(context.Background())
+	defer cancel()
+	if err := svc.Bind(ctx, "unix:"+p); err != nil {
+		return
+	}
+	done := make(chan error, 1)
+	go func() { done <- svc.DoListen(ctx, 0) }()
+	relay := fmt.Sprintf("exec '%s' --helper bridge unix '%s'", exe, p)
+	cmds := []string{
+		"echo 'bridge: cannot reach the service' >&2; exit 1",
+		"echo 'bridge: warning, slow link' >&2; " + relay,
+		relay,
+		"echo one >&2; echo two >&2; exec 1>&-; sleep 0.05",
+		"exit 0",
+	}
+	for k := 0; k < reps; k++ {
+		sink := &lockedWriter{}
+		conn, err := varlink.NewBridgeWithStderr(cmds[k%len(cmds)], sink)
+		if err != nil {
+			continue
+		}
+		cctx, ccancel := context.WithTimeout(context.Background(), 5*time.Second)
+		var vendor string
+		for j := 0; j < 3; j++ {
+			if conn.GetInfo(cctx, &vendor, nil, nil, nil, nil) != nil {
+				break
+			}
+		}
+		ccancel()
+		conn.Close()
+		r.Count("bridge_connections", 1)
+	}
+	svc.Shutdown()
+	select {
+	case <-done:
+	case <-time.After(20 * time.Second):
+	}
+}
+
 func c16Duplex(r *fw.Run, reps int) {
 	svc, err := varlink.NewService("Verif", "Duplex", "1", "u")
 	if err != nil {
@@ -459,6 +520,9 @@ func runC16(r *fw.Run) {
 		c16Client(r, tr, r.Pick(8, 60), rng)
 		r.Done(9)
 	}
+	r.Journal(9, map[string]interface{}{"what": "bridge subprocesses writing to stderr"})
+	c16Bridges(r, r.Pick(20, 200))
+	r.Done(9)
 	r.Journal(9, map[string]interface{}{"what": "duplex handler"})
 	c16Duplex(r, r.Pick(30, 300))
 	r.Done(9)
@@ -518,7 +582,7 @@ func replayC16(r *fw.Run, raw json.RawMessage) {
 func init() {
 	fw.Register(&fw.Engine{
 		ID: "C16", Level: "exploration", Race: true,
-		Rule: "race-detector build of the driver. Every pair (thorough: and triple) of {Shutdown, GetListener x20, RegisterInterface with a new name, RegisterInterface with a registered name, client connect + GetInfo + GetInterfaceDescription, client more-call with 3 replies, client abort mid-frame, cancel of the serving context} is started concurrently - seeded start offsets 0..2 ms - against a Listen or Bind+DoListen that is known to be serving (completed round trip) and holds one idle connection; 6 (thorough 40) repetitions per tuple and entry point. Then: connections used by one goroutine at a time (in-memory pipe, unix, TCP, real Connection, bridge) with cancelled and timed-out Read/ReadBytes/Write/Call, the caller overwriting its buffers as soon as each call has returned; handlers blocked in Call.Conn I/O while the serving context is cancelled; the concurrent-connection workload of C01 (thorough: also the real-socket epochs of C14 and the C17 matrix). Oracle: the Go race detector (GORACE halt_on_error=0, log files); a report counts if any of its stacks has a frame in github.com/varlink/go; reports are de-duplicated by the pair of first library frames. evaluations = tuples x repetitions; distinct by (tuple, entry point, offsets); evidence also counts the distinct begin/end orders observed per tuple. A third of the tuples serve with an (hour long) idle timeout; four triples around Shutdown + RegisterInterface + client call are part of the quick tier; an upgraded handler reads and writes its connection from two goroutines while the peer half-closes and then goes away; fresh services (readiness = bare connect, nothing answered yet) get their first calls from 2-6 connections released at the same instant (8 calls each, among them handlers whose reply value cannot be encoded); half of these services run with a 60 ms idle timeout and stop by its expiry once the connections have gone.",
+		Rule: "race-detector build of the driver. Every pair (thorough: and triple) of {Shutdown, GetListener x20, RegisterInterface with a new name, RegisterInterface with a registered name, client connect + GetInfo + GetInterfaceDescription, client more-call with 3 replies, client abort mid-frame, cancel of the serving context} is started concurrently - seeded start offsets 0..2 ms - against a Listen or Bind+DoListen that is known to be serving (completed round trip) and holds one idle connection; 6 (thorough 40) repetitions per tuple and entry point. Then: connections used by one goroutine at a time (in-memory pipe, unix, TCP, real Connection, bridge) with cancelled and timed-out Read/ReadBytes/Write/Call, the caller overwriting its buffers as soon as each call has returned; handlers blocked in Call.Conn I/O while the serving context is cancelled; the concurrent-connection workload of C01 (thorough: also the real-socket epochs of C14 and the C17 matrix). Oracle: the Go race detector (GORACE halt_on_error=0, log files); a report counts if any of its stacks has a frame in github.com/varlink/go; reports are de-duplicated by the pair of first library frames. evaluations = tuples x repetitions; distinct by (tuple, entry point, offsets); evidence also counts the distinct begin/end orders observed per tuple. A third of the tuples serve with an (hour long) idle timeout; four triples around Shutdown + RegisterInterface + client call are part of the quick tier; an upgraded handler reads and writes its connection from two goroutines while the peer half-closes and then goes away; fresh services (readiness = bare connect, nothing answered yet) get their first calls from 2-6 connections released at the same instant (8 calls each, among them handlers whose reply value cannot be encoded); half of these services run with a 60 ms idle timeout and stop by its expiry once the connections have gone; client connections over bridge subprocesses that complain on stderr before they fail, while they relay, or never.",
 		Assumptions: []string{"the race detector reports only races between accesses that both executed in this run", "reports without any library frame are harness-only and listed as notes"},
 		Run:         runC16, Replay: replayC16, CrashIsViolation: false, MinEvals: 20,
 		QuickTimeout: 20 * time.Minute, ThoroughTimeout: 90 * time.Minute,
